@@ -28,13 +28,19 @@ from rt.common import Workload, main, schema
 from rt import c05_util as U
 from rt import c05_gen as G
 
-BUNDLED = "/repo/hed/schema/schema_data"
+
+
+def _bundled_dir():
+    """schema_data of the hed package that is actually imported (the working tree of /repo in the normal set-up)"""
+    import hed.schema
+    return os.path.join(os.path.dirname(os.path.abspath(hed.schema.__file__)), "schema_data")
+
 LEGACY = ("score_1.0.0", "testlib_1.0.2")
 
 
 def bundled_versions():
     out = []
-    for path in sorted(glob.glob(os.path.join(BUNDLED, "*.xml"))):
+    for path in sorted(glob.glob(os.path.join(_bundled_dir(), "*.xml"))):
         root = ET.parse(path).getroot()
         lib, ver, ws = root.get("library", ""), root.get("version"), root.get("withStandard", "")
         out.append(((lib + "_" if lib else "") + ver, lib, ws))
@@ -154,7 +160,7 @@ def _base(version, form):
         if form == "merged":
             # the shipped file itself (partnered libraries ship in merged form) - no writer of /repo involved
             lib, _, ver = version.rpartition("_")
-            with open(os.path.join(BUNDLED, "HED_%s_%s.xml" % (lib, ver) if lib else "HED%s.xml" % ver), encoding="utf-8") as f:
+            with open(os.path.join(_bundled_dir(), "HED_%s_%s.xml" % (lib, ver) if lib else "HED%s.xml" % ver), encoding="utf-8") as f:
                 _base_xml[key] = f.read()
         else:
             _base_xml[key] = s.get_as_xml_string(save_merged=False)     # unmerged form exists only as writer output
@@ -422,7 +428,7 @@ def run(w: Workload):
         schema(v)            # load before forking: workers inherit the cache
     compliant = [(v, lib, ws) for v, lib, ws in allb if v not in LEGACY]
     # ---- part B work list
-    n_edits = int(os.environ.get("C05_N_EDITS", 0)) or (200 if w.quick else 4000)    # env override: debugging only
+    n_edits = int(os.environ.get("C05_N_EDITS", 0)) or (150 if w.quick else 3000)    # env override: debugging only
     work = []
     for k in range(n_edits):
         v, lib, ws = compliant[k % len(compliant)]
